@@ -107,7 +107,33 @@ func init() {
 	})
 	reg("strings.Clone", identity1)
 	reg("internal/stringslite.Clone", identity1)
-	reg("unique.Make[string]", identity1)
+	// unique.Make[T](v) Handle[T]: canonical pointer per distinct value (forks on symbolic equality)
+	reg("unique.Make", func(e *Engine, st *State, args []Value, fn *ssa.Function) []Outcome {
+		v := args[0]
+		var outs []Outcome
+		cur := st
+		for _, ent := range e.uniqueTab {
+			if !sameShape(ent.val, v) {
+				continue
+			}
+			c := e.valuesEqual(ent.val, v)
+			t, f := e.branch(cur, c)
+			if t != nil {
+				outs = append(outs, Outcome{st: t, ret: &StructV{F: []Value{&PtrV{Obj: ent.obj}}}})
+			}
+			if f == nil {
+				return outs
+			}
+			cur = f
+		}
+		// canonical objects live in the base heap so that every state sees them
+		e.nextObj++
+		id := e.nextObj
+		e.base[id] = v
+		e.uniqueTab = append(e.uniqueTab, uniqueEnt{val: v, obj: id})
+		outs = append(outs, Outcome{st: cur, ret: &StructV{F: []Value{&PtrV{Obj: id}}}})
+		return outs
+	})
 }
 
 func pathKey(p []int) string {
@@ -189,4 +215,33 @@ func (e *Engine) indexString(st *State, s, sep *StrV) []Outcome {
 		outs = append(outs, Outcome{st: cp.st, ret: res})
 	}
 	return outs
+}
+
+type uniqueEnt struct {
+	val Value
+	obj int
+}
+
+// sameShape reports whether two values have the same Go representation kind (cheap type proxy).
+func sameShape(a, b Value) bool {
+	switch x := a.(type) {
+	case *StructV:
+		y, ok := b.(*StructV)
+		if !ok || len(x.F) != len(y.F) {
+			return false
+		}
+		for i := range x.F {
+			if !sameShape(x.F[i], y.F[i]) {
+				return false
+			}
+		}
+		return true
+	case *Term:
+		y, ok := b.(*Term)
+		return ok && x.W == y.W
+	case *StrV:
+		_, ok := b.(*StrV)
+		return ok
+	}
+	return false
 }
